@@ -3,7 +3,9 @@ package vlib
 import (
 	"math"
 	"math/rand"
+	"os"
 	"runtime"
+	"strconv"
 	"sync"
 	"sync/atomic"
 	"time"
@@ -142,6 +144,13 @@ func UnixNs(ns int64) time.Time { return time.Unix(0, ns) }
 
 // Parallel runs f(0..n-1) on up to workers goroutines (0 = number of CPUs, capped at 12).
 func Parallel(n, workers int, f func(i int)) {
+	if s := os.Getenv("VERIF_CASE"); s != "" {
+		// replay a single case
+		if i, err := strconv.Atoi(s); err == nil && i < n {
+			f(i)
+		}
+		return
+	}
 	if workers <= 0 {
 		workers = runtime.NumCPU()
 		if workers > 12 {
